@@ -449,6 +449,26 @@ func genLookup(t *Tracer, m *Meta, prop, tier string, seed int64) {
 		runLookupCase(t, m, r, c, lookupOpts{qlimit: 200, table: true, loaded: true, keysObs: true, mcheck: prop == "C05"})
 		m.class("boundary:" + boundaryConds[ci].Name)
 	}
+	// (2c) every key carries the same value: with de-duplication ONE key is retained and the
+	// trie degenerates to a chain of single-label nodes above one leaf
+	for i := 0; i < 6; i++ {
+		fam := []string{"ascii", "twosym", "prefixes", "uniform", "wide", "comb"}[i]
+		keys := genKeys(r, fam, []int{2, 5, 40, 150, 12, 30}[i], 1+r.Intn(6))
+		enc := pickEnc(r, prop)
+		if enc == "none" {
+			enc = "i32"
+		}
+		vals := make([][]byte, len(keys))
+		for j := range vals {
+			vals[j] = encodeVal(enc, 7)
+		}
+		for _, o4 := range pickOpts(r, prop, 2) {
+			o4[0] = 1
+			c := &TrieCase{Keys: keys, Enc: enc, Vals: vals, Opt4: o4}
+			runLookupCase(t, m, r, c, lookupOpts{qlimit: 120, table: true, loaded: true, keysObs: true, mcheck: prop == "C05"})
+		}
+		m.class("special:all-values-equal")
+	}
 	// (3) degenerate: empty and single-key tries in every option combination
 	for _, o4 := range all16 {
 		for _, keys := range [][]string{{}, {""}, {"a"}, {"\x00\xff\x80"}} {
